@@ -1489,3 +1489,221 @@ Proof.
     destruct (IH F1 F' HT S1 S2 Hrest H) as [M2 C2]. split; [lia|].
     intros x [->|Hin] Hx'; [specialize (C1 Hx'); lia|apply C2; assumption].
 Qed.
+
+Lemma leader_steps_commit_mono T : forall ms L L',
+  T <> 0 -> r_state L = Leader -> r_term L = T -> Forall (resp_typed T) ms ->
+  steps L ms = Ok L' -> committed (r_log L) <= committed (r_log L').
+Proof.
+  induction ms as [|m t IH]; intros L L' HT Hs Ht Hall H; cbn [steps] in H.
+  - assert (L' = L) by congruence. subst L'. lia.
+  - inv_bind H. destruct x as [L1 c1]. cbn [fst] in H.
+    pose proof (Forall_inv Hall) as Hm. pose proof Hm as (Hm1 & Hm2).
+    pose proof (leader_step_fr T L m L1 c1 HT Hs Ht Hm Hx) as (G1 & _ & _ & _ & _ & _ & G7).
+    assert (M1 : committed (r_log L) <= committed (r_log L1)).
+    { destruct (leader_resp_cases T L m L1 c1 HT Hs Ht Hm1 Hm2 Hx)
+        as (_ & [(Hlog & _)|(pg & pr2 & r1 & cmt & _ & _ & _ & Hmc & Hlog & _)]).
+      - rewrite Hlog. lia.
+      - rewrite Hlog. apply maybe_commit_log in Hmc. apply log_maybe_commit_facts in Hmc.
+        destruct Hmc as (M & _). exact M. }
+    pose proof (IH L1 L' HT ltac:(congruence) ltac:(congruence) (Forall_inv_tail Hall) H). lia.
+Qed.
+
+Section ViewCommit.
+
+Variables (LL : LL) (T l f lo : N) (rw : bool).
+Hypothesis HLL : LeaderLog LL.
+Hypothesis Hlo : ll_base LL <= lo.
+Hypothesis HloT : exists t, ll_term LL lo = SOk t.
+Hypothesis HT : T <> 0.
+Hypothesis Hlf : l <> f.
+Variables (rwl : bool) (l0 : raft_log).
+Hypothesis Hl0 : RepInv rwl l0.
+Hypothesis Habs0 : abs l0 = LL.
+
+Local Notation LCore := (LCore T l l0).
+Local Notation PairInv := (PairInv LL T l f lo rw l0).
+Local Notation vrounds := (vrounds T f).
+
+(* the heartbeat queued for f by the firing tick carries min (matched, committed) *)
+Lemma leader_tick_hb L pr L2 hr :
+  LCore L -> get_pr L f = Some pr -> tick L = Ok (L2, hr) ->
+  r_heartbeat_timeout L <= r_heartbeat_elapsed L + 1 ->
+  exists x, In x (r_msgs L2) /\ m_to x = f /\ m_type x = MsgHeartbeat /\
+            m_commit x = N.min (matched pr) (committed (r_log L)).
+Proof.
+  intros HC Hg H Hfire. pose proof HC as [C1 C2 C3 C4 C5 C6 C7 C8].
+  assert (Hbeat : forall X hr0, LCore X -> get_pr X f = Some pr -> r_log X = r_log L ->
+                    r_heartbeat_timeout X <= r_heartbeat_elapsed X ->
+                    beat_phase X hr0 = Ok (L2, hr) ->
+                    exists x, In x (r_msgs L2) /\ m_to x = f /\ m_type x = MsgHeartbeat /\
+                              m_commit x = N.min (matched pr) (committed (r_log L))).
+  { intros X hr0 HX HgX HlX Hle Hb. unfold beat_phase in Hb.
+    destruct (r_heartbeat_timeout X <=? r_heartbeat_elapsed X) eqn:E; [|apply N.leb_gt in E; lia].
+    rewrite bcast_heartbeat_eq in Hb. cbn [bind] in Hb. inversion Hb; subst L2 hr; clear Hb.
+    set (X0 := X <| r_heartbeat_elapsed := 0 |>).
+    exists (hb_msg X0 (ro_last_pending_request_ctx (r_read_only X0)) f).
+    split.
+    { cbn. apply in_or_app. right. apply in_map. apply filter_In. split.
+      - unfold get_pr in HgX. eapply pget_some_in. exact HgX.
+      - rewrite (lc_id _ _ _ _ HX). apply negb_true_iff. apply N.eqb_neq. congruence. }
+    split; [apply hb_msg_to|].
+    unfold hb_msg. change (get_pr X0 f) with (get_pr X f). rewrite HgX.
+    change (r_log X0) with (r_log X). rewrite HlX.
+    destruct (ro_last_pending_request_ctx (r_read_only X0)); split; reflexivity. }
+  destruct (N.lt_ge_cases (r_election_elapsed L + 1) (r_election_timeout L)) as [He|He].
+  - rewrite (leader_heartbeats L C1 He) in H.
+    apply (Hbeat (ticked L) false); [constructor; cbn; auto|exact Hg|reflexivity|cbn; exact Hfire|exact H].
+  - rewrite (checkquorum_stepdown L C1 He), C7 in H.
+    apply (Hbeat (after_check L false) false); [constructor; cbn; auto|exact Hg|reflexivity|cbn; exact Hfire|exact H].
+Qed.
+
+Lemma other_ok_typed m : other_ok T f m -> resp_typed T m.
+Proof. intros (A & _ & B). split; assumption. Qed.
+
+(* commit-index facts of one round seen from f *)
+Lemma view_round_commit Hb a L F pre post L' F' pr :
+  PairInv Hb a L F -> get_pr L f = Some pr ->
+  Forall (other_ok T f) pre -> Forall (other_ok T f) post ->
+  view_round L F pre post = Ok (L', F') ->
+  committed (r_log L) <= committed (r_log L') /\
+  committed (r_log F) <= committed (r_log F') /\
+  (forall x, In x (to_peer f (r_msgs L)) -> m_type x = MsgHeartbeat ->
+             m_commit x <= committed (r_log F')) /\
+  (Hb <= r_heartbeat_elapsed L + 1 ->
+     exists pr1 x, get_pr L' f = Some pr1 /\ In x (to_peer f (r_msgs L')) /\
+       m_type x = MsgHeartbeat /\ m_commit x = N.min (matched pr1) (committed (r_log L'))).
+Proof.
+  intros HI Hg Hpre Hpost H.
+  destruct (view_round_inv LL T l f lo rw HLL Hlo HloT HT Hlf rwl l0 Hl0 Habs0 Hb a L F pre post L' F' pr
+              HI Hg Hpre Hpost H) as (a' & pr' & _ & HI' & Hg' & _).
+  destruct HI as [HC (pr0 & Hg0 & HP) HF HFq Hq HH Htm].
+  unfold view_round in H. rewrite (fi_id _ _ _ _ _ _ _ HF), (lc_id _ _ _ _ HC) in H.
+  set (Q := to_peer f (r_msgs L)) in *.
+  inv_bind H. rename x into F1. inv_bind H. rename x into L1. inv_bind H. destruct x as [L2 hrl].
+  inv_bind H. destruct x as [F2 hrf]. cbn [fst] in H. inversion H; subst L' F'; clear H.
+  (* the follower's steps *)
+  assert (HQty : Forall (fun m => m_term m = T /\ (m_type m = MsgAppend \/ m_type m = MsgHeartbeat)) Q).
+  { eapply Forall_impl; [|exact Hq]. intros m [(A & B & _)|(A & B & _)]; auto. }
+  destruct (follower_steps_commit T Q F F1 HT (fi_state _ _ _ _ _ _ _ HF) (fi_term _ _ _ _ _ _ _ HF) HQty Hx)
+    as [MF CF].
+  destruct (follower_steps LL T l f lo rw HLL Hlo HT Hlf Q a F F1 HF Hq Hx)
+    as (a1 & resps & La & HF1 & Fr1 & M1 & Ch & E1 & Eq1 & _).
+  rewrite HFq in M1. cbn [app] in M1.
+  destruct (follower_frame_fields _ _ Fr1) as (Fp & Fra & Fid).
+  (* the follower's tick does not fire *)
+  set (F1c := F1 <| r_msgs := [] |>) in *.
+  assert (HF1c : FInv LL T f lo rw a1 F1c) by (destruct HF1; constructor; cbn; auto).
+  assert (Hwait : r_promotable F1c = false \/
+                  r_election_elapsed F1c + 1 < r_randomized_election_timeout F1c).
+  { change (r_promotable F1c) with (r_promotable F1).
+    change (r_election_elapsed F1c) with (r_election_elapsed F1).
+    change (r_randomized_election_timeout F1c) with (r_randomized_election_timeout F1).
+    rewrite Fp, Fra. destruct Htm as [Htm|[Htm1 Htm2]]; [left; exact Htm|right].
+    destruct Q as [|q0 qt] eqn:EQ.
+    - rewrite (Eq1 eq_refl). specialize (Htm2 eq_refl). lia.
+    - rewrite E1 by discriminate. lia. }
+  destruct (follower_tick LL T f lo rw a1 F1c F2 hrf HF1c Hwait Hx2) as [EF2 _].
+  assert (HlogF2 : r_log F2 = r_log F1) by (rewrite EF2; reflexivity).
+  (* the leader *)
+  rewrite M1, (to_peer_all l resps (resp_chain_to _ _ _ _ _ _ Ch)) in Hx0.
+  set (L0 := L <| r_msgs := [] |>) in *.
+  assert (HC0 : LCore L0) by (destruct HC; constructor; cbn; auto).
+  assert (Hty : Forall (resp_typed T) (pre ++ resps ++ post)).
+  { apply Forall_app. split; [eapply Forall_impl; [|exact Hpre]; apply other_ok_typed|].
+    apply Forall_app. split; [|eapply Forall_impl; [|exact Hpost]; apply other_ok_typed].
+    pose proof (resp_chain_all T l f _ _ _ Ch) as Hall. eapply Forall_impl; [|exact Hall].
+    intros m (b & Rt & _ & _ & Rk). split; [exact Rt|].
+    destruct Rk as [(A & B)|[(A & _)|(A & _)]]; auto. }
+  pose proof (leader_steps_commit_mono T _ L0 L1 HT (lc_state _ _ _ _ HC0) (lc_term _ _ _ _ HC0) Hty Hx0) as ML.
+  pose proof (steps_lfr T _ L0 L1 HT (lc_state _ _ _ _ HC0) (lc_term _ _ _ _ HC0) Hty Hx0) as Hl1.
+  pose proof (lfr_LCore _ _ _ _ _ Hl1 HC0) as HC1.
+  destruct (lfr_fields _ _ Hl1) as [Ht1 He1].
+  change (r_heartbeat_timeout L0) with (r_heartbeat_timeout L) in Ht1.
+  change (r_heartbeat_elapsed L0) with (r_heartbeat_elapsed L) in He1.
+  destruct (leader_tick_frame T l l0 L1 L2 hrl HC1 Hx1) as (HC2 & Hlog2 & Hprs2).
+  split; [rewrite Hlog2; exact ML|]. split; [rewrite HlogF2; exact MF|].
+  split; [intros x Ix Tx; rewrite HlogF2; apply CF; assumption|].
+  intros Hfire.
+  assert (Hg1 : get_pr L1 f = Some pr').
+  { unfold get_pr in *. rewrite <- Hprs2. exact Hg'. }
+  destruct (leader_tick_hb L1 pr' L2 hrl HC1 Hg1 Hx1 ltac:(rewrite Ht1, He1, HH; exact Hfire))
+    as (x & Ix & Tx & Ty & Cx).
+  exists pr', x. split; [exact Hg'|]. split; [apply In_to_peer; assumption|]. split; [exact Ty|].
+  rewrite Hlog2. exact Cx.
+Qed.
+
+(* the follower's commit index reaches the leader's, once matched and the leader's commit
+   index are at [last] *)
+Lemma v_commit_mono n : forall Hb a L F pr L' F',
+  PairInv Hb a L F -> get_pr L f = Some pr -> vrounds n L F L' F' ->
+  committed (r_log L) <= committed (r_log L') /\ committed (r_log F) <= committed (r_log F').
+Proof.
+  induction n as [|n IH]; intros Hb a L F pr L' F' HI Hg H.
+  - inversion H; subst L' F'. lia.
+  - inversion H as [|n0 L0 F0 pre post L1 F1 L2 F2 Hp Hq Hv Hr]; subst n0 L0 F0 L2 F2.
+    destruct (view_round_inv LL T l f lo rw HLL Hlo HloT HT Hlf rwl l0 Hl0 Habs0 Hb a L F pre post L1 F1 pr
+                HI Hg Hp Hq Hv) as (a1 & pr1 & _ & HI1 & Hg1 & _).
+    destruct (view_round_commit Hb a L F pre post L1 F1 pr HI Hg Hp Hq Hv) as (A & B & _).
+    destruct (IH Hb a1 L1 F1 pr1 L' F' HI1 Hg1 Hr). lia.
+Qed.
+
+Lemma v_commit_after_fire Hb a L F pr L' F' :
+  PairInv Hb a L F -> get_pr L f = Some pr -> matched pr = ll_last LL ->
+  ll_last LL <= committed (r_log L) -> Hb <= r_heartbeat_elapsed L + 1 ->
+  vrounds 2 L F L' F' -> committed (r_log F') = ll_last LL.
+Proof.
+  intros HI Hg Hm Hc Hfire H.
+  inversion H as [|n0 L0 F0 pre1 post1 L1 F1 L9 F9 Hp1 Hq1 Hv1 Hr1]; subst n0 L0 F0 L9 F9.
+  inversion Hr1 as [|n0 L0 F0 pre2 post2 L2 F2 L9 F9 Hp2 Hq2 Hv2 Hr2]; subst n0 L0 F0 L9 F9.
+  inversion Hr2; subst L' F'.
+  destruct (view_round_inv LL T l f lo rw HLL Hlo HloT HT Hlf rwl l0 Hl0 Habs0 Hb a L F _ _ L1 F1 pr
+              HI Hg Hp1 Hq1 Hv1) as (a1 & pr1 & _ & HI1 & Hg1 & Hm1 & _).
+  destruct (view_round_commit Hb a L F _ _ L1 F1 pr HI Hg Hp1 Hq1 Hv1) as (A1 & _ & _ & Hhb).
+  destruct (Hhb Hfire) as (pr1' & x & Hg1' & Ix & Tx & Cx).
+  rewrite Hg1 in Hg1'. inversion Hg1'; subst pr1'.
+  destruct (PairInv_matched_le _ _ _ _ _ _ _ _ _ _ _ _ HI1 Hg1) as [HP1 Ha1].
+  pose proof (pi_b _ _ _ _ HP1) as Hb1.
+  destruct (view_round_inv LL T l f lo rw HLL Hlo HloT HT Hlf rwl l0 Hl0 Habs0 Hb a1 L1 F1 _ _ L2 F2 pr1
+              HI1 Hg1 Hp2 Hq2 Hv2) as (a2 & pr2 & _ & HI2 & Hg2 & _).
+  destruct (view_round_commit Hb a1 L1 F1 _ _ L2 F2 pr1 HI1 Hg1 Hp2 Hq2 Hv2) as (_ & _ & C2 & _).
+  specialize (C2 x Ix Tx). rewrite Cx in C2.
+  pose proof (fi_commit _ _ _ _ _ _ _ (pv_F _ _ _ _ _ _ _ _ _ _ _ HI2)) as Hle.
+  pose proof (ag_lastL _ _ _ _ (fi_agree _ _ _ _ _ _ _ (pv_F _ _ _ _ _ _ _ _ _ _ _ HI2))) as Ha2.
+  lia.
+Qed.
+
+Lemma v_commit_within d : forall Hb a L F pr L' F',
+  PairInv Hb a L F -> get_pr L f = Some pr -> matched pr = ll_last LL ->
+  ll_last LL <= committed (r_log L) -> Hb <= r_heartbeat_elapsed L + 1 + N.of_nat d ->
+  vrounds (d + 2) L F L' F' -> committed (r_log F') = ll_last LL.
+Proof.
+  induction d as [|d IH]; intros Hb a L F pr L' F' HI Hg Hm Hc Hd H.
+  - apply (v_commit_after_fire Hb a L F pr L' F' HI Hg Hm Hc); [cbn in Hd; lia|exact H].
+  - assert (Hstay : forall a1 L1 F1 pr1 k,
+              PairInv Hb a1 L1 F1 -> get_pr L1 f = Some pr1 -> committed (r_log F1) = ll_last LL ->
+              vrounds k L1 F1 L' F' -> committed (r_log F') = ll_last LL).
+    { intros a1 L1 F1 pr1 k HI1 Hg1 Hc1 Hr.
+      destruct (v_commit_mono k Hb a1 L1 F1 pr1 L' F' HI1 Hg1 Hr) as [_ MF].
+      destruct (vrounds_mono LL T l f lo rw HLL Hlo HloT HT Hlf rwl l0 Hl0 Habs0 k Hb a1 L1 F1 pr1 L' F'
+                  HI1 Hg1 Hr) as (a' & pr' & _ & HI' & _).
+      pose proof (fi_commit _ _ _ _ _ _ _ (pv_F _ _ _ _ _ _ _ _ _ _ _ HI')) as Hle.
+      pose proof (ag_lastL _ _ _ _ (fi_agree _ _ _ _ _ _ _ (pv_F _ _ _ _ _ _ _ _ _ _ _ HI'))) as Ha'.
+      lia. }
+    destruct (N.lt_ge_cases (r_heartbeat_elapsed L + 1) Hb) as [Hq|Hf].
+    + change (S d + 2)%nat with (S (d + 2)) in H.
+      inversion H as [|n0 L0 F0 pre post L1 F1 L9 F9 Hp1 Hq1 Hv1 Hr1]; subst n0 L0 F0 L9 F9.
+      destruct (view_round_inv LL T l f lo rw HLL Hlo HloT HT Hlf rwl l0 Hl0 Habs0 Hb a L F _ _ L1 F1 pr
+                  HI Hg Hp1 Hq1 Hv1) as (a1 & pr1 & _ & HI1 & Hg1 & Hm1 & _ & _ & _ & _ & Hh1).
+      destruct (view_round_commit Hb a L F _ _ L1 F1 pr HI Hg Hp1 Hq1 Hv1) as (A1 & _).
+      destruct (PairInv_matched_le _ _ _ _ _ _ _ _ _ _ _ _ HI1 Hg1) as [HP1 Ha1].
+      pose proof (pi_b _ _ _ _ HP1). specialize (Hh1 Hq).
+      apply (IH Hb a1 L1 F1 pr1 L' F' HI1 Hg1); [lia|lia|lia|exact Hr1].
+    + replace (S d + 2)%nat with (2 + S d)%nat in H by lia.
+      destruct (vrounds_split T f _ _ _ _ _ _ H) as (L1 & F1 & H2 & Hrest).
+      pose proof (v_commit_after_fire Hb a L F pr L1 F1 HI Hg Hm Hc Hf H2) as Hc1.
+      destruct (vrounds_mono LL T l f lo rw HLL Hlo HloT HT Hlf rwl l0 Hl0 Habs0 2 Hb a L F pr L1 F1
+                  HI Hg H2) as (a1 & pr1 & _ & HI1 & Hg1 & _).
+      eapply Hstay; eassumption.
+Qed.
+
+End ViewCommit.
